@@ -5,7 +5,8 @@
 From Coq Require Import List ZArith Arith Sorted.
 From Mamba Require Import Invariants.Graph Invariants.GraphOfEdges Invariants.ColourModel Invariants.ColourSpec
   Invariants.ColourProofs Invariants.ColourGreedy Invariants.DegenProofs
-  Invariants.CliqueSpec Invariants.CliqueRef Invariants.CliqueRefProofs Invariants.ColourRef Invariants.ColourRefProofs.
+  Invariants.CliqueSpec Invariants.CliqueRef Invariants.CliqueRefProofs Invariants.ColourRef Invariants.ColourRefProofs
+  Invariants.ChromPolyModel Invariants.ChromPolyProofs.
 Import ListNotations.
 Open Scope Z_scope.
 
@@ -43,6 +44,23 @@ Example C09_degeneracy_nonvacuous :
   let g := of_edges 6 [(0,1); (1,2); (2,0); (2,3); (3,4); (4,5); (5,3); (0,3)]%nat in
   wf g /\ degeneracy g = Some (2%nat, [0; 1; 2; 3; 4; 5]%nat).
 Proof. split; [apply of_edges_wf|vm_compute; reflexivity]. Qed.
+
+(* ChromaticPolynomial (deletion-contraction on the abstract editable graph, in the order of the
+   explicit stack): for every simple graph the function does not panic or run out of fuel, returns
+   n+1 coefficients, and the polynomial evaluates at every k to the number of proper colourings
+   with colours 0..k-1 (the length of a duplicate-free list that holds exactly those colourings). *)
+Theorem C09_chromatic_polynomial : forall g, wf g ->
+  exists poly, chromatic_polynomial g = Some poly /\ length poly = S (gn g) /\
+    forall k, exists l, NoDup l /\ (forall c, In c l <-> k_colouring g k c) /\
+      eval_poly poly (Z.of_nat k) = Z.of_nat (length l).
+Proof. exact chromatic_polynomial_correct. Qed.
+Print Assumptions C09_chromatic_polynomial.
+
+Example C09_chromatic_polynomial_nonvacuous :
+  let g := of_edges 5 [(0,1); (1,2); (2,3); (3,4); (4,0); (0,2)]%nat in
+  chromatic_polynomial g = Some [0; 6; -15; 14; -6; 1] /\
+  map (eval_poly [0; 6; -15; 14; -6; 1]) [2; 3; 4] = [0; 18; 168].
+Proof. vm_compute. split; reflexivity. Qed.
 
 (* ---- proved reference oracles: the model line of the correspondence for the values whose
    algorithms (Bron-Kerbosch with pivoting, DSATUR branch and bound) are not proved.  Each is an
